@@ -1,6 +1,6 @@
 """C11 - refining or decomposing columns conserves area and volume and tiles the domain."""
 from checks import generic
-from contracts import c11
+from contracts import c11, c10
 
 
 def main(tier):
@@ -9,8 +9,9 @@ def main(tier):
         'polygons with 5..10 sides and 0..4 straight angles (decompose, triangulate); split_column; refine_layers on layer subsets x factors 2..4 x surface patterns; area and volume conservation, tiling by point sampling with '
         'an independent point-in-polygon, conformity with an independent edge table',
         trust=('templates and transition_type extracted from the AST of mulgrid.refine at every run', 'sympy polynomial identity over symbolic vertex coordinates and a free centre point', 'exact combinatorics on the template edges'),
-        assume=('positive orientation of each piece (convex parents) is not part of the algebraic identity: bounded', 'decompose_column / triangulate / split templates and refine_layers thickness algebra: bounded'),
+        assume=('whole-operation obligations: start geometry mulgrid.rectangular() of 2x2x2 / 2x2x3 / 3x2x2 / 3x1x2 blocks with symbolic spacings and surfaces, one operation per program',
+                'positive orientation of each piece (convex parents) is not part of the algebraic identity: proved on the rectangular instances, bounded elsewhere', 'decompose_column / triangulate / split templates and refine_layers thickness algebra: bounded'),
         explanation='clause -> evidence: every subdivision template of refine (triangles and quadrilaterals, every refined-side pattern) conserves signed area for ARBITRARY vertex positions and any centre point (PROVED, polynomial identity); '
                     'every template is conforming - each interior edge appears once in each direction, the boundary is the parent boundary with exactly the refined sides split, pieces have 3 or 4 vertices (PROVED, exact); transition_type is '
-                    'total on every non-empty side subset of 3- and 4-sided columns and selects the template whose refined sides are exactly the given ones (PROVED, exhaustive). Whole-mesh area / volume conservation, tiling, conformity, layer refinement: BOUNDED. 7 known findings.',
-        bounded_timeout=(1200, 3400))
+                    'total on every non-empty side subset of 3- and 4-sided columns and selects the template whose refined sides are exactly the given ones (PROVED, exhaustive). On a real rectangular geometry (constructor and operation run by the executor, symbolic spacings and surfaces) refine of all / a subset of columns, bisection, x-bisection, decompose_columns and refine_layers: total plan area and rock volume unchanged, every new column inside one old column with its surface, new columns adding up to the old column area, mesh conforming (connections exactly where two columns share an edge, no orphan node) and the representation invariant of C10: PROVED per operation instance (shared with C10; split_column and refine beside a boundary reproduce known findings). Irregular meshes, polygons with 5+ sides, point-sampled tiling: BOUNDED. 7 known findings.',
+        bounded_timeout=(1200, 3400), extra=[(c10, c10.PROGRAMS_C11)])
